@@ -151,6 +151,9 @@ def gen(rng, tier, i):
         sc.add_origin(oaddr, default_ops=origin_ops(tmo), oid="origin")
     # a names-only upstream (socks4 cannot carry a name it cannot resolve... it can: 4a) is fine
     tunnels = []
+    banner_mode = rng.random() < 0.15 and ck in ("direct", "http", "https", "socks5", "socks4", "sockstls", "socks5auth") and not splice
+    if banner_mode:
+        ntun = 1
     maxlen = min(262144 if not thorough else 4 << 20, max(64, bufsz * 3000))
     cap = sc.net.get("chaos", {}).get("capacity", 1 << 20) or (1 << 20)
     tls_any = lk in ("https", "sockstls", "quic") or ck in ("https", "sockstls", "quic", "chain-quic")
@@ -198,6 +201,26 @@ def gen(rng, tier, i):
         ops = hs + [op("par", w=wops, r=rops)]
         cid = "t%d" % t
         cchaos = None
+        if banner_mode:
+            # who speaks first = the origin: its banner (glued to the upstream's success reply when there is an upstream proxy)
+            # must reach the client before the client says anything; then the client's stream goes up
+            hs, proto = sc.client_handshake(li, host, oport, variant=variant, creds=creds)
+            ops = hs + [op("expect", fill=[seed ^ TAG_XOR, s2c], timeout_ms=tmo, label="s2c"), op("send", fill=[seed, c2s], timeout_ms=tmo), op("shutdown"), op("recv_eof", timeout_ms=tmo, label="s2c-eof")]
+            far = [op("recv_eof", timeout_ms=tmo, label="banner-c2s", keep=0), op("shutdown")]
+            leaf = leaves[0]
+            if leaf["kind"] == "direct":
+                for a in sc.actors:
+                    if a.get("id") == "origin":
+                        a["default_ops"] = [op("send", fill=[seed ^ TAG_XOR, s2c], timeout_ms=tmo)] + far
+            else:
+                hsu = sc.upstream_handshake(leaf)
+                last = [o for o in hsu if o["op"] == "send"][-1]
+                last["fill"] = [seed ^ TAG_XOR, s2c]      # banner glued behind the success reply in the same write
+                last["timeout_ms"] = tmo
+                leaf["server"]["default_ops"] = hsu + far
+            sc.add_client(cid, li, ops, start_ms=10)
+            tunnels.append({"cid": cid if li["kind"] != "quic" else cid + "/s0", "seed": seed, "c2s": c2s, "s2c": s2c, "proto": proto, "early": False, "banner": True})
+            continue
         sc.add_client(cid, li, ops, start_ms=10 + rng.choice([0, 0, 1, 3, 50]) * t, chaos=cchaos)
         tunnels.append({"cid": cid if li["kind"] != "quic" else cid + "/s0", "seed": seed, "c2s": c2s, "s2c": s2c, "proto": proto, "early": early})
     sc.meta = {"no_generic_fill_shrink": True, "keep_ops": True, "cls": "%s>%s" % (lk, ck), "cfgkey": "%s>%s/b%d/%s/%s" % (lk, ck, bufsz, chaos_name, "splice" if splice else "buf"),
@@ -276,6 +299,17 @@ def oracle(plan, out):
                 v("s2c-no-eof", "client %s: no clean end of stream after the last byte: %s" % (cid, x and x["res"]))
             elif x["res"] != "eof@0":
                 v("s2c-extra", "client %s received %s extra bytes after the origin's stream: %s" % (cid, x["res"][4:], x.get("hex", "")[:64]))
+        if t.get("banner"):
+            # the far end only counted the client's bytes
+            b = None
+            for r in R.records:
+                if r.get("label") == "banner-c2s":
+                    b = r
+            if b is None or not b["res"].startswith("eof@"):
+                v("c2s-truncated", "banner tunnel %s: the far end never saw the client's stream end: %s" % (cid, b and b["res"]))
+            elif int(b["res"][4:]) != t["c2s"]:
+                v("c2s-truncated" if int(b["res"][4:]) < t["c2s"] else "c2s-extra", "banner tunnel %s: the far end received %s bytes, the client sent %d" % (cid, b["res"][4:], t["c2s"]))
+            continue
         # c2s on the origin
         srv = served.get(t["seed"], [])
         if len(srv) == 0:
@@ -323,6 +357,7 @@ def probes(plan, out):
         "backpressure_engaged": c.get("backpressure", 0) > 0,
         "short_write_hit": c.get("short_write", 0) > 0,
         "zero_length_direction": sum(1 for t in meta["tunnels"] if t["c2s"] == 0 or t["s2c"] == 0),
+        "origin_speaks_first": sum(1 for t in meta["tunnels"] if t.get("banner")),
     }
 
 
